@@ -217,6 +217,11 @@ def ev(body, e, leaf, depth=0):
             return rec(e[2][0])
         if re.search(r'Option::<.*>::unwrap$|Result::<.*>::unwrap$', path) and e[2]:
             return rec(e[2][0])
+        from .facts import inlinable, subst_args
+        hb = inlinable(body.facts, path)
+        if hb is not None and len(e[2]) == hb.argc and depth < 150:
+            # a crate-local loop-free function (an accessor such as Session::line_count): its value is its return term
+            return ev(body, subst_args(hb.ret_expr(), list(e[2])), leaf, depth + 1)
         raise Unknown('call %s' % path)
     raise Unknown(k)
 
